@@ -33,6 +33,31 @@ CLAIMED = {
  "C15": ("DESIGN.md §6 C15",
          "Seeded schedule search with statement-level pre-emption in netio/pipe.go: 2-4 goroutines per end issuing Write/Read/WriteTo/Set*Deadline(past, future, zero)/CloseWrite/CloseRead/Close; every delivered byte names its Write (exactly once, in order, never interleaved, returned count equals bytes consumed), every error needs a cause, half-close and deadline rules hold, no run is stuck at quiescence or after the final close, none panics.",
          "runs terminate by construction through a janitor task that watches for quiescence; at most 85 bytes per writer; the outcome of racing legal events is not constrained."),
+
+ "C05": ("DESIGN.md §6 C05",
+         "Two run classes. Codec: for every UDP codec (direct, Shadowsocks-none, SOCKS5, Shadowsocks 2022 with 0-3 identity headers and every padding policy), both directions and all 32 relay pairings with the buffer layout the relay services compute, payloads of 0..limit+2 bytes for every address kind and MTU in {1280,1492,1500,9000,65535} in canary-filled buffers: unpack(pack(x)) == x, packed length never exceeds the independently derived limit, over-limit payloads are refused, nothing outside the returned packet is written. Relay: the whole service (generic and mmsg paths) relays tagged datagrams and replies whose sizes are dense around both MTU limits; a wire monitor checks every datagram the relay emits against the MTU of that side and the edge checks equality (never truncated).",
+         "relay layout in the codec half is mirrored from service code; identity chains of depth 2-3 are decoded through harness-written SIP022 hops; the SOCKS5 client session is built without its TCP association; the relay half judges a network without loss or corruption."),
+ "C07": ("DESIGN.md §6 C07",
+         "Every generated handshake of the real socks5, httpproxy CONNECT and ssnone servers is driven by both the repository client and an RFC-written harness client over a fragmenting simulated transport (byte-wise writes, pipelined handshakes, read fragmentation) and checked for exact request and identity extraction, the credential gate, reply framing, the reply for every dial-result code, and a position-coded duplex stream after the reply including server-first data coalesced with it.",
+         "sampled over addresses, credentials, method lists and fragmentations; the reply-code oracle accepts several RFC-reasonable replies where no exact counterpart exists; HTTP Basic limited to canonical encodings; no TLS."),
+ "C08": ("DESIGN.md §6 C08",
+         "Seeded exploration of API/reload/save histories of the real cred.Manager bound to real ss2022 TCP and UDP servers on the simulated disk and clock: 1-4 concurrent management-API clients, file edits plus reload through the API and the SIGUSR1 function, statement-level pre-emption in cred/manager.go and ss2022/credstore.go. Oracles: porcupine linearizability against a nondeterministic user->key model that includes the store file; at quiescence, equality of accepted keys (real handshakes per key), listed keys and file keys, with user attribution and fresh-load. Found duplicate-key acceptance and the lock-split races (repaired).",
+         "handlers are called through a ServeMux with httptest recorders, not over HTTP; SIGUSR1 is modelled by calling LoadFromFile; histories <= 40 operations; runs are partitioned into eight flavours."),
+ "C16": ("DESIGN.md §6 C16",
+         "The real httpproxy non-CONNECT path (407 loop, request and response forwarders, pipe, BidirectionalCopy) is exercised with generated pipelined conversations (1-20 requests) between an independent HTTP/1.1 client and scripted origin over a fragmenting simulated network; every message is compared at the origin (method, effective target, Host, end-to-end headers, body, announced trailers, absence of hop-by-hop, nominated, Upgrade and proxy-credential fields) and at the client (order, interim and final responses, bodies); end-of-connection conditions for host change, later CONNECT and close. Found and repaired the default User-Agent and the lost-final-after-1xx defects; two findings are listed as known.",
+         "two known findings remain open (c16.leaked-field{trailer}, c16.spurious-close{bodiless-response-without-length}); unannounced trailers, response hop-by-hop stripping and reset-terminated connections are not asserted; the origin answers sequentially."),
+ "C17": ("DESIGN.md §6 C17",
+         "The real dns.Resolver, cache and direct TCP/UDP clients are driven over the simulated network by a scripted upstream through generated lookup histories covering every listed upstream behaviour over UDP and TCP, wrong-source injection, loss/dup/delay, capacities 1..4 and fake-clock times at +-1 ms around TTL, negative and 30 s failure expiries; oracle: provenance + lifetime + capacity model derived from the bytes on the wire by an independent parse. Found the failure-rcode/malformed-message expiry defect (repaired).",
+         "sequential lookups only; the TTL clause is an upper bound under the most generous reading; success is demanded only in clean-UDP or clean-first-TCP cases; eviction order is not asserted."),
+ "C19": ("DESIGN.md §6 C19",
+         "The real clientgroups selectors, probe loops and TCP/UDP probes run on the fake clock against scripted per-member probe targets: 1..5 members, up to 80 rounds (beyond the 32/64-round retention), all failure kinds, tie-heavy latencies, default and custom knobs; round-robin and random selected concurrently under statement-level pre-emption; the group's choice is checked against a reference policy model while probes are provably in flight and between rounds.",
+         "the initial choice and the round-robin start offset are unspecified and accepted; concurrent round-robin is checked by multiset; member clients are stubs."),
+ "C20": ("DESIGN.md §6 C20",
+         "Seeded exploration of one disk fault (kill, ENOSPC, EIO at any mutating operation and byte count of any debounced save) followed by a restart of a new manager on the surviving file, and of fault-free shutdown (cancel + Stop) at drawn debounce phases including pre-emption between any two statements of the save loop; oracle: the store loads as the previous or the new user set, handshakes accept exactly that set, the API keeps working, changes acknowledged before shutdown are on disk when Stop returns. Found the in-place rewrite, the dropped save on shutdown and the zero-byte store defects (repaired). Power-loss outcomes are counted only.",
+         "disk is the simos model (page-cache view, single planned fault, writes cut at byte granularity); process death is modelled by abandoning the old manager; multi-fault sequences and fsync failures are not explored."),
+ "C12": ("DESIGN.md §6 C12",
+         "The whole relay runs in the simulator (generic and mmsg paths): 1-5 UDP sessions are driven through lifecycle scenarios (stop while busy, idle out then stop, idle out + restart + stop, stop while sessions are being initialised) with the stop placed a drawn number of scheduling steps into live traffic; oracle: NAT sockets and relay goroutines are gone one NAT timeout after the last client datagram, a later datagram gets a working new session, Stop returns within 5 s of simulated time, afterwards no socket or goroutine of the service is left. Found the shutdown-deadline re-arm race (repaired).",
+         "the stop bound asserted is 5 s (injected latencies <= 1 s, NAT timeouts >= 60 s); harness clients use the repository's packers."),
 }
 
 NOT_APPLICABLE = {
